@@ -6,6 +6,7 @@ PROPERTY_MODULES = {
     "C08": ["combinators", "pjax_vmap"],
     "C14": ["seed", "pjax_vmap", "state"],
     "C19": ["state"],
+    "C20": ["state_space"],
     "C11": ["adev"],
     "C15": ["adev"],
     "C13": ["distributions", "pjax_vmap"],
